@@ -175,8 +175,27 @@ class LivenessAnalysis(Generic[VId], BackwardAnalysis[LivenessDomain[VId]]):
                     if x not in uses[bb] or use.idx < uses[bb][x].idx:
                         uses[bb][x] = use
                         changed = True
+        # The order of the variables is normalised as well: it decides which of several
+        # undefined variables gets reported and in which order captured variables are
+        # passed around. Sort by the recorded use (BB index, then position of the use in
+        # that BB); variables without a use keep the order of the initial value.
+        initial_pos = {x: i for i, x in enumerate(self._initial)}
+
+        def sort_key(item: tuple[VId, BB]) -> tuple[int, int, int]:
+            x, use = item
+            used = self.stats[use].used if use in self.stats else {}
+            if x in used:
+                return (use.idx, 0, list(used).index(x))
+            return (use.idx, 1, initial_pos.get(x, len(initial_pos)))
+
         return {
-            bb: {x: uses[bb].get(x, use) for x, use in live[bb].items()} for bb in bbs
+            bb: dict(
+                sorted(
+                    ((x, uses[bb].get(x, use)) for x, use in live[bb].items()),
+                    key=sort_key,
+                )
+            )
+            for bb in bbs
         }
 
     def apply_bb(self, live_after: LivenessDomain[VId], bb: BB) -> LivenessDomain[VId]:
